@@ -16,6 +16,11 @@ UNIT = dict(
 #[verifier::external_body] pub struct Node { }
 #[verifier::external_body] pub fn __abs_f64() -> f64 { unimplemented!() }
 #[verifier::external_body] pub fn __abs_stop() -> bool { unimplemented!() }
+// ghost flag: the cached chance draws of this pass have been reset ("a fresh draw is made for the
+// next pass"); set only by the abstracted `chance_infosets.iter_mut().for_each(.. advance())`
+pub struct Draws { pub rearmed: Ghost<bool> }
+#[verifier::external_body] pub fn __draws_of_this_pass() -> (d: Draws) ensures !d.rearmed@ { unimplemented!() }
+#[verifier::external_body] pub fn __abs_rearm_chance_draws(d: &mut Draws) ensures final(d).rearmed@ { unimplemented!() }
 #[verifier::external_body] pub struct Tgt { }
 impl Tgt { #[verifier::external_body] pub fn get(&self) -> usize { unimplemented!() } }
 """),
@@ -41,9 +46,10 @@ impl Tgt { #[verifier::external_body] pub fn get(&self) -> usize { unimplemented
                  (r"^work\.payoffs \.par_extend\(work\.queue\.par_drain\(\.\.\)\.map\(\|node\| \{ let payoff = recurse_regret::<FIRST>\( node, chance_infosets, active_player_infosets, external_player_infosets, &\(\), \); \(ByAddress\(node\), payoff\) \}\)\);$",
                   ("abstract", "__abs_par_drain_into(&mut work.payoffs, &mut work.queue); // @ob C07.V.workspace_fresh.payoff_cache")),
                  (r"^recurse_regret::<FIRST>\( root, chance_infosets, active_player_infosets, external_player_infosets, &work\.payoffs, \);$", ("abstract", "")),
-                 (r"^chance_infosets \.iter_mut\(\) \.for_each\(\|info\| info\.get_mut\(\)\.unwrap\(\)\.advance\(\)\);$", ("abstract", "")),
-                 (r"^active_player_infosets \.par_iter_mut\(\) \.map\(\|info\| info\.get_mut\(\)\.unwrap\(\)\.advance::<FIRST>\(it, params\)\) \.sum\(\)$", ("abstract", "__abs_f64()")),
+                 (r"^chance_infosets \.iter_mut\(\) \.for_each\(\|info\| info\.get_mut\(\)\.unwrap\(\)\.advance\(\)\);$", ("abstract", "__abs_rearm_chance_draws(&mut __draws);"), "optional"),
+                 (r"^active_player_infosets \.par_iter_mut\(\) \.map\(\|info\| info\.get_mut\(\)\.unwrap\(\)\.advance::<FIRST>\(it, params\)\) \.sum\(\)$", ("abstract", "{ proof { assert(__draws.rearmed@); } // @ob C10.V.single_player_iter.fresh_draw_next_pass\n __abs_f64() }")),
              ],
+             entry="let mut __draws = __draws_of_this_pass();",
              contract="""requires
     old(work).fresh(), // the pass starts from a workspace that describes no earlier pass
 ensures
@@ -64,6 +70,7 @@ pub fn __abs_single_player_iter(work: &mut Workspace) -> (r: f64)
                  (r"^reg_two = single_player_iter::<false>\( root, &mut chance_infosets, \[&mut player_two, &mut player_one\], target, &mut work, it, params, \);$",
                   ("abstract", "__abs_single_player_iter(&mut work); // @ob C07.V.solve_external_multi.workspace_fresh")),
                  (r"^if .* \{ break; \}$", ("abstract_break", "if __abs_stop() { break; }")),
+                 (r"^chance_infosets \.iter_mut\(\) \.for_each\(", ("abstract", ""), "optional"),
              ]},
              loops={0: dict(kind="for", head="invariant work.fresh(), // @ob C07.V.solve_external_multi.workspace_fresh")},
         ),
